@@ -185,7 +185,11 @@ func Hazards(p *Program) []string {
 			top[s.Name] = true
 		}
 	}
-	WalkProgram(p, func(e Expr) {
+	// locals: names the function around a literal declares itself (parameters, lets, loop and catch
+	// variables): inside the literal such a name is the function's variable even if a global of the
+	// same name exists (over-approximated: declared anywhere in the function)
+	locals := map[string]bool{}
+	checkLit := func(e Expr) {
 		lit, ok := e.(FnLit)
 		if !ok {
 			return
@@ -237,11 +241,74 @@ func Hazards(p *Program) []string {
 			}
 		})
 		WalkBlock(lit.Body, func(x Expr) {
-			if v, ok := x.(Var); ok && !own[v.Name] && !top[v.Name] {
+			if v, ok := x.(Var); ok && !own[v.Name] && (!top[v.Name] || locals[v.Name]) {
 				tags["closure-capture"] = true
 			}
 		})
-	})
+	}
+	for _, m := range p.Modules {
+		for _, g := range m.Globals {
+			WalkExpr(g.V, checkLit)
+		}
+		for _, fn := range m.Funcs {
+			locals = map[string]bool{}
+			for _, pa := range fn.Params {
+				locals[pa.Name] = true
+			}
+			var decls func(b *Block)
+			decls = func(b *Block) {
+				if b == nil {
+					return
+				}
+				for _, st := range b.Stmts {
+					switch st := st.(type) {
+					case Let:
+						locals[st.Name] = true
+					case For:
+						locals[st.Name] = true
+					}
+				}
+			}
+			decls(fn.Body)
+			WalkBlock(fn.Body, func(x Expr) {
+				if t, ok := x.(Try); ok {
+					locals[t.Name] = true
+				}
+				_, blocks := Children(x)
+				for _, bb := range blocks {
+					decls(bb)
+				}
+			})
+			// loop bodies are statements, not expressions: their lets
+			var loops func(b *Block)
+			loops = func(b *Block) {
+				if b == nil {
+					return
+				}
+				for _, st := range b.Stmts {
+					switch st := st.(type) {
+					case Loop:
+						decls(st.Body)
+						loops(st.Body)
+					case While:
+						decls(st.Body)
+						loops(st.Body)
+					case For:
+						decls(st.Body)
+						loops(st.Body)
+					}
+					WalkStmt(st, func(x Expr) {
+						_, blocks := Children(x)
+						for _, bb := range blocks {
+							loops(bb)
+						}
+					})
+				}
+			}
+			loops(fn.Body)
+			WalkBlock(fn.Body, checkLit)
+		}
+	}
 	WalkProgram(p, func(e Expr) {
 		var ops []Expr
 		switch e := e.(type) {
